@@ -196,6 +196,9 @@ pub struct Plan {
     pub eagain: Option<(usize, usize)>,
     /// all threads receive identical getrandom bytes
     pub dup_entropy: bool,
+    /// every 32-byte getrandom request (a generator seed) is answered with
+    /// exactly these bytes (hex): adversarial entropy chosen by the harness
+    pub seed_entropy: Option<String>,
 }
 
 impl Plan {
@@ -207,6 +210,7 @@ impl Plan {
             "sticky": self.sticky.map(|(s, e)| json!([s, sys::errname(e)])),
             "eagain": self.eagain.map(|(i, k)| json!([i, k])),
             "dup_entropy": self.dup_entropy,
+            "seed_entropy": self.seed_entropy,
         })
     }
     pub fn from_json(v: &Value) -> Plan {
@@ -225,6 +229,7 @@ impl Plan {
             }),
             eagain: v.get("eagain").and_then(|s| s.as_array()).map(|a| (a[0].as_u64().unwrap_or(0) as usize, a[1].as_u64().unwrap_or(0) as usize)),
             dup_entropy: v.get("dup_entropy").and_then(|x| x.as_bool()).unwrap_or(false),
+            seed_entropy: v.get("seed_entropy").and_then(|x| x.as_str()).map(|s| s.to_string()),
         }
     }
 }
@@ -1424,7 +1429,10 @@ impl Universe {
             if nr == libc::SYS_getrandom && answer == Answer::Continue {
                 let len = n.data.args[1] as usize;
                 let buf = unsafe { std::slice::from_raw_parts_mut(n.data.args[0] as *mut u8, len) };
-                if input.plan.dup_entropy {
+                let fixed: Option<Vec<u8>> = input.plan.seed_entropy.as_ref().filter(|_| len == 32).map(|h| (0..32).map(|i| u8::from_str_radix(&h[2 * i..2 * i + 2], 16).unwrap_or(0)).collect());
+                if let Some(f) = fixed {
+                    buf.copy_from_slice(&f);
+                } else if input.plan.dup_entropy {
                     while entropy_dup.len() < len {
                         let mut b = [0u8; 64];
                         entropy.fill(&mut b);
